@@ -759,6 +759,19 @@ func init() {
 		}
 		return &StrV{Conc: strings.ReplaceAll(a[0], a[1], a[2])}
 	}
+	stubs["strings.Count"] = func(e *Exec, st *State, fn *ssa.Function, args []Val, where string) Val {
+		sub, ok := e.concStr(args[1])
+		if !ok {
+			panic(&UnsupportedErr{Msg: "strings.Count with symbolic pattern at " + where})
+		}
+		t := e.strMapT(args[0], func(x *StrV) *Term {
+			if x.Sym != nil || x.Segs != nil {
+				panic(&UnsupportedErr{Msg: "strings.Count on a symbolic text at " + where})
+			}
+			return e.S.Int(int64(strings.Count(x.Conc, sub)))
+		})
+		return e.F.FromIndexInt(t, types.Typ[types.Int])
+	}
 	stubs["strings.ContainsAny"] = func(e *Exec, st *State, fn *ssa.Function, args []Val, where string) Val {
 		chars, ok := e.concStr(args[1])
 		if !ok {
